@@ -542,7 +542,7 @@ fn q_var(s: &str) -> Value {
 }
 
 fn random_param(r: &mut impl Rng, for_cal: bool) -> Value {
-    match r.gen_range(0..if for_cal { 6 } else { 8 }) {
+    match r.gen_range(0..if for_cal { 6 } else { 11 }) {
         0 => json!({"t": "int", "n": 0}),
         1 => json!({"t": "int", "n": 1}),
         2 => json!({"t": "pi2"}),
@@ -553,7 +553,11 @@ fn random_param(r: &mut impl Rng, for_cal: bool) -> Value {
             json!({"t": "var", "v": v})
         }
         6 => json!({"t": "plus1", "e": {"t": "int", "n": 0}}),
-        _ => json!({"t": "neg", "e": {"t": "pi2"}}),
+        7 => json!({"t": "neg", "e": {"t": "pi2"}}),
+        // spellings whose value is a literal of the calibration alphabet: -0, -(-(pi/2)), (-1)+1
+        8 => json!({"t": "neg", "e": {"t": "int", "n": 0}}),
+        9 => json!({"t": "neg", "e": {"t": "neg", "e": {"t": "pi2"}}}),
+        _ => json!({"t": "plus1", "e": {"t": "neg", "e": {"t": "int", "n": 1}}}),
     }
 }
 
